@@ -520,7 +520,11 @@ impl EventGen for Tag {
             }
             Tag::Leaf(el, tail) => {
                 let mut el = el.clone();
-                context.apply_defaults(&mut el);
+                // (the attributes of `var` and `config` are assignments, not properties
+                // of an element: defaults - wildcard ones in particular - don't apply)
+                if !matches!(el.name.as_str(), "var" | "config") {
+                    context.apply_defaults(&mut el);
+                }
                 let (ev, bb) = el.generate_events(context)?;
                 (events, bbox) = (ev, bb);
                 if let (Some(tail), false) = (tail, events.is_empty()) {
